@@ -3,15 +3,19 @@
 
   tools/seedtest.py [--tier quick] [--props C01,C04] [seed_dir ...]
 
-For each seeded/<name>/patch.diff: git -C /repo apply, run ./check <prop> for the property the mutant targets
-(or the --props list), record whether a VIOLATION line was printed, then git -C /repo checkout -- . straight
+For each seeded/<name>/patch.diff: git -C @REPO@ apply, run ./check <prop> for the property the mutant targets
+(or the --props list), record whether a VIOLATION line was printed, then git -C @REPO@ checkout -- . straight
 afterwards.  Results are appended to seeded/RESULTS.jsonl (not part of any registered command)."""
 import json, os, subprocess, sys, time
 
 VERIF = os.path.dirname(os.path.dirname(os.path.abspath(__file__)))
 
 
+REPO = os.environ.get("VERIF_REPO", "/repo")
+
+
 def sh(cmd, **kw):
+    cmd = cmd.replace("@REPO@", REPO)
     return subprocess.run(cmd, shell=True, stdout=subprocess.PIPE, stderr=subprocess.STDOUT, text=True, **kw)
 
 
@@ -25,18 +29,18 @@ def main():
         else: dirs.append(a[i]); i += 1
     if not dirs:
         dirs = sorted(d for d in os.listdir(os.path.join(VERIF, "seeded")) if os.path.isdir(os.path.join(VERIF, "seeded", d)))
-    st = sh("git -C /repo status --porcelain --untracked-files=no").stdout.strip()
+    st = sh("git -C @REPO@ status --porcelain --untracked-files=no").stdout.strip()
     if st:
-        sys.exit("refusing: /repo has uncommitted changes:\n" + st)
+        sys.exit("refusing: the repository has uncommitted changes:\n" + st)
     for d in dirs:
         name = os.path.basename(d.rstrip("/"))
         sdir = os.path.join(VERIF, "seeded", name)
         patch = os.path.join(sdir, "patch.diff")
         targets = props or [name[:3]]
-        r = sh("git -C /repo apply %s 2>&1 || (git -C /repo apply --3way %s 2>&1 && git -C /repo reset -q)" % (patch, patch))
-        if sh("git -C /repo diff --quiet HEAD").returncode == 0:
+        r = sh("git -C @REPO@ apply %s 2>&1 || (git -C @REPO@ apply --3way %s 2>&1 && git -C @REPO@ reset -q)" % (patch, patch))
+        if sh("git -C @REPO@ diff --quiet HEAD").returncode == 0:
             print(json.dumps({"seed": name, "error": "patch did not apply", "out": r.stdout[-500:]}))
-            sh("git -C /repo reset -q ; git -C /repo checkout -- .")
+            sh("git -C @REPO@ reset -q ; git -C @REPO@ checkout -- .")
             continue
         try:
             for p in targets:
@@ -50,7 +54,7 @@ def main():
                 with open(os.path.join(VERIF, "seeded", "RESULTS.jsonl"), "a") as f:
                     f.write(json.dumps(res) + "\n")
         finally:
-            sh("git -C /repo reset -q ; git -C /repo checkout -- .")
+            sh("git -C @REPO@ reset -q ; git -C @REPO@ checkout -- .")
 
 
 if __name__ == "__main__":
